@@ -893,6 +893,15 @@ def template_family():
               bound="%s::from_str_with_radix_prefix on the literal text \"%s\" with byte %d replaced by every ASCII byte except '_'" % ("IBig" if signed else "UBig", t, hole))
 
 
+def fbig_round_family():
+    OPS = ["trunc", "floor", "ceil", "round", "fract", "split"]
+    for b, ks in ((2, (1, 3, 8)), (10, (1, 3))):
+        for k in ks:
+            for op, on in enumerate(OPS):
+                H("c10_fbig_%s_b%d_k%d" % (on, b, k), "h_round::fbig_round_ops::<%d>(%d,%d,20)" % (b, k, op), TH("C10", "C16"), "i64", unwind=16,
+                  bound="FBig<_, %d>::%s on sig * %d^-%d for every normalised |sig| < 2^20 (inline-only regime), against integer arithmetic" % (b, on, b, k))
+
+
 def literal_family():
     # "literal point" harnesses: no symbolic input at all. They exist for operations whose symbolic harnesses are
     # probes (undecided); each decides the property at a handful of named inputs only - stated as such in the bound.
@@ -954,6 +963,8 @@ def build():
     buf_family()
     literal_family()
     template_family()
+    # fbig_round_family() is NOT registered: FBig::trunc/floor/ceil/round/fract with a literal exponent and |sig| < 2^20
+    # ran out of memory or time in every instance (13 of 13 started), DESIGN 0.2 (k)
     # float_family() is NOT registered: every instance ran out of time/memory (DESIGN 0.2 (k)); the bodies in
     # h_float.rs are kept because their native random run (--selftest) exposed a genuine rounding defect
     thin()
